@@ -45,7 +45,7 @@ DecV(neg, ip, fp) == LET i == StripLead(ip)
                          f == StripTrail(fp)
                      IN [k |-> "dec", neg |-> neg /\ ~(i = <<0>> /\ f = <<>>), a |-> i, b |-> f]
 StrV(bytes) == [k |-> "str", neg |-> FALSE, a |-> bytes, b |-> <<>>]
-ErrV(what) == [k |-> "err", neg |-> FALSE, a |-> <<>>, b |-> <<>>, what |-> what]
+ErrV(what) == [k |-> "err:" \o what, neg |-> FALSE, a |-> <<>>, b |-> <<>>]   \* the call raises
 
 Scalar(name, v) == [name |-> name, col |-> FALSE, v |-> <<v>>]
 Column(name, vs) == [name |-> name, col |-> TRUE, v |-> vs]
@@ -239,7 +239,7 @@ ReprDec(v) ==
   LET lead == IF v.a # <<0>> THEN Len(v.a)                                   \* decimal exponent + 1
               ELSE IF v.b = <<>> THEN 1 ELSE 1 - SelectInSeq(v.b, LAMBDA x : x # 0)
       sig == StripTrail(IF v.a # <<0>> THEN v.a \o v.b
-                        ELSE IF v.b = <<>> THEN <<>> ELSE SubSeq(v.b, 2 - lead, Len(v.b)))
+                        ELSE IF v.b = <<>> THEN <<>> ELSE SubSeq(v.b, 1 - lead, Len(v.b)))
       ex == lead - 1
       exd == IF ex < 0 THEN -ex ELSE ex
       exdig == IF exd < 10 THEN <<0, exd>> ELSE IF exd < 100 THEN <<exd \div 10, exd % 10>>
@@ -413,7 +413,7 @@ SameShapes(x, y) == \A bn \in Names(y) : \A n \in Names(ByName(y, bn).items) :
    IN p.col = q.col /\ Len(p.v) = Len(q.v)
 TypeDiff(x, y) == {c \in CellsOf(y) : CellAt(x, c).k # CellAt(y, c).k}
 (* x: what came back, y: what was given; loop cells to the precision of the format *)
-ValueOK(p, q, half12) == IF IsNum(q) /\ IsNum(p) THEN NumClose(p, q, half12 /\ q.k = "dec") ELSE p = q
+ValueOK(p, q, half12) == IF q.k = "dec" /\ IsNum(p) THEN NumClose(p, q, half12) ELSE p = q   \* ints and strings exactly
 ValueDiff(x, y, fmt) == {c \in CellsOf(y) : ~ValueOK(CellAt(x, c), CellAt(y, c), fmt /\ IsColumn(y, c))}
 SameData(x, y) == /\ SameBlockNames(x, y) /\ SameItemNames(x, y) /\ SameShapes(x, y)
                   /\ TypeDiff(x, y) = {} /\ ValueDiff(x, y, FALSE) = {}
